@@ -1,6 +1,7 @@
 /-
 C01 pillar 4, first half: loom's dependence tables as equations, the list of pairs it never
-orders, and the two pairs for which this is wrong with respect to `Spec/SC` (findings F10, F7).
+orders, the `Arc` pair `Inspect`/`RefDec` (finding F10: repaired, with its remainder — a single
+inspection slot) and the pair for which the tables are wrong with respect to `Spec/SC` (finding F7).
 -/
 import LoomVerif.Proofs.DepSC
 import LoomVerif.Model.Interp
@@ -31,11 +32,16 @@ theorem chan_records (s : ChanSt) (pid : Nat) (v : VV) :
     s.setLastAccess .chanSend pid v = { s with lastSend := some ⟨pid, v⟩ } ∧
     s.setLastAccess .chanRecv pid v = { s with lastRecv := some ⟨pid, v⟩ } := ⟨rfl, rfl⟩
 
-/-- `Arc`: `RefInc` consults the last inspection, `RefDec` the last decrement, `Inspect` the
-last modification (increment or decrement, whichever came last) -/
+/-- `Arc`: `RefInc` consults the last inspection, `RefDec` the later (by position in the path) of the
+last decrement and the last inspection, `Inspect` the last modification (increment or decrement,
+whichever came last) -/
 theorem arc_consults (s : ArcSt) :
     s.lastDependentAccess .arcInc = s.lastInspect ∧
-    s.lastDependentAccess .arcDec = s.lastDec ∧
+    s.lastDependentAccess .arcDec =
+      (match s.lastDec, s.lastInspect with
+       | some d, some i => if i.pathId > d.pathId then some i else some d
+       | some d, none => some d
+       | none, i => i) ∧
     s.lastDependentAccess .arcInspect =
       (match s.lastMod with
        | some .inc => s.lastInc
@@ -75,7 +81,8 @@ def ArcInvisible (x y : Action) : Prop :=
 
 /-- the `Arc` table: `false` = the later `y` is ordered after the earlier `x` -/
 def arcIndep : Action → Action → Bool
-  | .arcInc, .arcInspect | .arcDec, .arcDec | .arcDec, .arcInspect | .arcInspect, .arcInc => false
+  | .arcInc, .arcInspect | .arcDec, .arcDec | .arcDec, .arcInspect | .arcInspect, .arcInc
+  | .arcInspect, .arcDec => false
   | _, _ => true
 
 theorem atomic_table (x y : Action) : AtomicInvisible x y ↔ x = .atomLoad ∧ y = .atomLoad := by
@@ -111,9 +118,8 @@ theorem arc_table (x y : Action) : ArcInvisible x y ↔ arcIndep x y = true := b
 
 /-- `Dep.independent_pairs`: the pairs of operations on one object that loom never orders
 against each other, whichever comes first — atomic load/load; channel send/recv; `Arc`
-inc/inc, inc/dec, inspect/inspect — and the one-directional case: an earlier `Inspect` is
-invisible to a later `RefDec`.  All other pairs of atomic, channel and `Arc` actions are
-ordered in at least one direction. -/
+inc/inc, inc/dec, inspect/inspect.  All other pairs of atomic, channel and `Arc` actions are
+ordered in both directions (in particular `Inspect`/`RefDec`, after the repair of finding F10). -/
 theorem independent_pairs :
     -- atomics
     (∀ x y, x ∈ [Action.atomLoad, .atomStore, .atomRmw] → y ∈ [Action.atomLoad, .atomStore, .atomRmw] →
@@ -124,7 +130,7 @@ theorem independent_pairs :
     -- Arc
     (∀ x y, x ∈ [Action.arcInc, .arcDec, .arcInspect] → y ∈ [Action.arcInc, .arcDec, .arcInspect] →
       (ArcInvisible x y ↔ (x, y) ∈ [(Action.arcInc, Action.arcInc), (.arcInc, .arcDec),
-        (.arcDec, .arcInc), (.arcInspect, .arcDec), (.arcInspect, .arcInspect)])) := by
+        (.arcDec, .arcInc), (.arcInspect, .arcInspect)])) := by
   refine ⟨?_, ?_, ?_⟩
   · intro x y hx hy
     rw [atomic_table]
@@ -138,7 +144,7 @@ theorem independent_pairs :
     simp only [List.mem_cons, List.not_mem_nil, or_false] at hx hy
     rcases hx with rfl | rfl | rfl <;> rcases hy with rfl | rfl | rfl <;> simp [arcIndep]
 
-/-! ### (iv) finding F10: `Inspect` then `RefDec` do not commute -/
+/-! ### (iv) finding F10 (repaired): `Inspect` then `RefDec` do not commute, and are ordered -/
 
 /-- `T0: acount 0 | T1: adrop 1` -/
 def progF10 : Prog := { cfg := {}, threads := [[.arcCount 0], [.arcDrop 1]] }
@@ -148,22 +154,85 @@ def stF10 : SC.St := { SC.init progF10 with
   ths := [{ started := true }, { started := true }]
   arcs := [(2, VV.zero)], handles := [(0, 0), (1, 0)] }
 
-/-- (iv) `strong_count` (Inspect) by thread 0 and `drop` (RefDec) by thread 1 on the same `Arc`,
-both enabled: the count returned depends on the order (2 if the inspection comes first, 1
-otherwise) — yet loom does not order a later `RefDec` after an earlier `Inspect`
-(`ArcSt.lastDependentAccess .arcDec` ignores `lastInspect`), so the second order is never
-explored from the first. -/
-theorem arc_inspect_dec_not_independent :
+/-- (iv), reference side: `strong_count` (Inspect) by thread 0 and `drop` (RefDec) by thread 1 on the
+same `Arc`, both enabled: the count returned depends on the order (2 if the inspection comes first, 1
+otherwise).  A fact about `Spec/SC` only. -/
+theorem arc_inspect_dec_not_commute :
     SC.NextOp progF10 stF10 0 (.arcCount 0) ∧ SC.NextOp progF10 stF10 1 (.arcDrop 1) ∧
     SC.arcOf stF10 0 = some 0 ∧ SC.arcOf stF10 1 = some 0 ∧
     SC.enabled progF10 stF10 0 = true ∧ SC.enabled progF10 stF10 1 = true ∧
     ((SC.step progF10 stF10 0).flatMap (fun s => SC.step progF10 s 1)).map
         (fun s => (s.th 0).rets) = [[(0, .val 2)]] ∧
     ((SC.step progF10 stF10 1).flatMap (fun s => SC.step progF10 s 0)).map
-        (fun s => (s.th 0).rets) = [[(0, .val 1)]] ∧
-    ArcInvisible .arcInspect .arcDec := by
+        (fun s => (s.th 0).rets) = [[(0, .val 1)]] := by
   refine ⟨⟨by decide, by decide⟩, ⟨by decide, by decide⟩, by decide, by decide, by decide,
-    by decide, by decide, by decide, (arc_table _ _).2 rfl⟩
+    by decide, by decide, by decide⟩
+
+/-- (iv), twin side, general form: what a `RefDec` consults, case by case — the recorded inspection if
+it is later in the path than the last decrement (or there is no decrement), the last decrement
+otherwise -/
+theorem arcDec_consults (s : ArcSt) :
+    (∀ i, s.lastInspect = some i → (∀ d, s.lastDec = some d → d.pathId < i.pathId) →
+      s.lastDependentAccess .arcDec = some i) ∧
+    (∀ d, s.lastDec = some d → (∀ i, s.lastInspect = some i → i.pathId ≤ d.pathId) →
+      s.lastDependentAccess .arcDec = some d) ∧
+    (s.lastInspect = none → s.lastDec = none → s.lastDependentAccess .arcDec = none) := by
+  refine ⟨?_, ?_, ?_⟩
+  · intro i hi hl
+    unfold ArcSt.lastDependentAccess
+    cases hd : s.lastDec with
+    | none => simp [hi]
+    | some d => simp [hi, hl d hd]
+  · intro d hd hl
+    unfold ArcSt.lastDependentAccess
+    cases hi : s.lastInspect with
+    | none => simp [hd]
+    | some i => simp [hd, Nat.not_lt.2 (hl i hi)]
+  · intro hi hd
+    unfold ArcSt.lastDependentAccess
+    simp [hi, hd]
+
+/-- (iv), twin side: if an inspection is recorded and is later than the last decrement (if any), a
+`RefDec` is compared with it -/
+theorem arcDec_depends_on_inspect (s : ArcSt) (i : Access) (hi : s.lastInspect = some i)
+    (hl : ∀ d, s.lastDec = some d → d.pathId < i.pathId) :
+    s.lastDependentAccess .arcDec = some i :=
+  (arcDec_consults s).1 i hi hl
+
+/-- … in particular directly after `set_last_access(Inspect)` at a path position later than the last
+decrement: an earlier `Inspect` is visible to a later `RefDec` -/
+theorem arcDec_after_inspect (s : ArcSt) (pid : Nat) (v : VV)
+    (hl : ∀ d, s.lastDec = some d → d.pathId < pid) :
+    (s.setLastAccess .arcInspect pid v).lastDependentAccess .arcDec = some ⟨pid, v⟩ :=
+  arcDec_depends_on_inspect _ ⟨pid, v⟩ rfl hl
+
+theorem arc_inspect_dec_dependent : ¬ ArcInvisible .arcInspect .arcDec := by
+  rw [arc_table]; decide
+
+/-- remainder of finding F10: there is ONE inspection slot.  `set_last_access(Inspect)` overwrites the
+previous inspection, so after `inspect(a); inspect(b)` the state — hence everything a later `RefDec`
+(or `RefInc`) consults — does not depend on `a` at all; a decrement later than `b` is compared with
+`b` only.  Witness: inspection `a` by thread 1 (clock `[0,1,0,0,0]`), inspection `b` by thread 2 (clock
+`[0,0,1,0,0]`, concurrent with `a`), then a decrement by a thread whose DPOR clock `[0,0,1,1,0]` has
+seen `b` but not `a`: the access returned happens-before it, so `dporMarks` adds no backtrack point,
+although the decrement races with inspection `a`. -/
+theorem arc_single_inspect_slot :
+    (∀ (s : ArcSt) pa va pb vb,
+      (s.setLastAccess .arcInspect pa va).setLastAccess .arcInspect pb vb
+        = s.setLastAccess .arcInspect pb vb) ∧
+    (∀ (s : ArcSt) pa va pb vb, (∀ d, s.lastDec = some d → d.pathId < pb) →
+      ((s.setLastAccess .arcInspect pa va).setLastAccess .arcInspect pb vb).lastDependentAccess .arcDec
+        = some ⟨pb, vb⟩) ∧
+    (let va := VV.ofList [0, 1, 0, 0, 0]
+     let vb := VV.ofList [0, 0, 1, 0, 0]
+     let dv := VV.ofList [0, 0, 1, 1, 0]
+     let s := (({} : ArcSt).setLastAccess .arcInspect 3 va).setLastAccess .arcInspect 4 vb
+     va.ble vb = false ∧ vb.ble va = false ∧ va.ble dv = false ∧
+     ∃ acc, s.lastDependentAccess .arcDec = some acc ∧ acc.pathId = 4 ∧
+       acc.happensBefore dv = true) := by
+  refine ⟨fun _ _ _ _ _ => rfl, fun s pa va pb vb hl => ?_, ?_⟩
+  · exact arcDec_after_inspect _ pb vb hl
+  · exact ⟨by decide, by decide, by decide, _, rfl, rfl, by decide⟩
 
 /-! ### (v) finding F7: `try_recv` on an empty queue and `send` do not commute -/
 
